@@ -437,12 +437,9 @@ func escapeRule(c *Ctx, v *vocab, rule string, pkgs []string, floor int) {
 							if e.Kind == EvSend && e.ChanObj != nil {
 								for _, t2 := range u.in.Traces {
 									for _, a := range t2.Ev {
-										if a.Kind == EvAssign && a.LObj == e.ChanObj {
-											if call, ok := ast.Unparen(a.RHS).(*ast.CallExpr); ok {
-												if id, ok := call.Fun.(*ast.Ident); ok && id.Name == "make" && len(call.Args) == 2 {
-													made = true
-												}
-											}
+										// (through a helper interpreted in place: Event.Made)
+										if a.Kind == EvAssign && a.LObj == e.ChanObj && a.Made != nil && len(a.Made.Call.Args) == 2 {
+											made = true
 										}
 									}
 								}
